@@ -256,7 +256,15 @@ fn numbers() -> Vec<El> {
      "18446744073709551615", "18446744073709551616", "1.5", "-0.0", "1e3", "inf", "-inf", "nan", "NaN", "(1", "abc"].iter().map(|s| b(s))
         .chain([El::Int(0), El::Int(-1), El::Int(i64::MAX), El::Int(i64::MIN), El::Bulk(vec![0xff, 0xfe]), El::Bulk(vec![b'1', 0xff]), El::Other(0), El::Other(1), El::Other(2)]).collect()
 }
-fn cases(k: &str) -> Vec<El> { vec![b(k), b(&k.to_lowercase()), b(&{ let mut c = k.to_lowercase().into_bytes(); c[0] = c[0].to_ascii_uppercase(); String::from_utf8(c).unwrap() })] }
+fn cases(k: &str) -> Vec<El> {
+    let mut v = vec![b(k), b(&k.to_lowercase()), b(&{ let mut c = k.to_lowercase().into_bytes(); c[0] = c[0].to_ascii_uppercase(); String::from_utf8(c).unwrap() })];
+    // letters outside ASCII whose Unicode upper case IS an ASCII letter (U+0131 dotless i -> I, U+017F long s -> S): the grammar's
+    // keyword is upper(text), so these spell the keyword too - a parser that folds case in ASCII only disagrees (seed C16-1)
+    let low = k.to_lowercase();
+    if low.contains('i') { v.push(b(&low.replacen('i', "\u{131}", 1))); }
+    if low.contains('s') { v.push(b(&low.replacen('s', "\u{17f}", 1))); }
+    v
+}
 /// (command name, fixed prefix after the name, option alphabet)
 fn commands() -> Vec<(&'static str, Vec<El>, Vec<El>)> {
     let kws = |ks: &[&str]| -> Vec<El> { ks.iter().flat_map(|k| cases(k)).collect() };
